@@ -17,6 +17,11 @@ INTERFACE (for plugin authors)
         imports=["From Snax Require Import Base.Prelude Model.PyLib Model.XdslAffine."],
         adts=[py2coq.Adt(...)], enums=[py2coq.Enum(...)],
         prefix="",                                       # prefix of generated function names
+        self_type={"StridePattern": "adt:spattern"},     # methods: type of `self`; `-> Self` and
+                                                         # `type(self)(...)` then mean that class
+        identity_attrs={"data"}, identity_ctors={"IntAttr"},   # wrappers that are the identity on the
+                                                         # int / list view (x.data, IntAttr(x))
+        signatures={...},                                # optional explicit (params, result) types
     )
     text = py2coq.translate(repo_root, spec)             # -> str (a complete .v file)
     vlib.write_if_changed(vlib.COQ / "Gen" / "CanonAffine.v", text)
